@@ -39,7 +39,8 @@ func init() { simrt.RegisterSite(siteReplInt, "hrepl:interrupter") }
 
 // lines with exactly one (large) output value: the whole output of such a line belongs to one
 // display evaluation, written in several chunks
-var replBigLines = []string{`[range(3000)]`, `[range(2500)] | map(tostring)`, `"y" * 30000`, `[range(1500)] | map({a: .})`}
+// (large enough for a dozen or more terminal writes each)
+var replBigLines = []string{`[range(20000)]`, `[range(12000)] | map(tostring)`, `"y" * 150000`, `[range(6000)] | map({a: .})`}
 
 var replLines = []string{
 	`123`, `"abc"`, `[1,2,3] | length`, `range(12)`, `range(40) | tostring`, `[range(30)]`, `{a: 1, b: [2, 3]}`,
@@ -330,7 +331,7 @@ func (*hrepl) Run(rc *core.RunCtx) *core.RunResult {
 			}
 		}
 		res.Probes["cli_sessions"]++
-		if late >= 2 {
+		if late >= 5 {
 			viol("output-after-cancellation", "cli", "program %q: an interrupt was fully processed after the first write, yet %d further writes reached the terminal", cliProg, late)
 			return res
 		}
@@ -386,7 +387,9 @@ func (*hrepl) Run(rc *core.RunCtx) *core.RunResult {
 		if late > 0 {
 			res.Probes["writes_after_cancel_seen"] += late
 		}
-		if late >= 2 {
+		// allowed after the cancellation: the write that had already passed the context check
+		// and what the enclosing, not cancelled evaluation prints around the value
+		if late >= 5 {
 			viol("output-after-cancellation", "repl", "line %q has one output value; an interrupt was fully processed after its first write, yet %d further writes of that value reached the terminal", strings.TrimSpace(s.line.Text), late)
 			return res
 		}
